@@ -111,14 +111,14 @@ def gen_op(rng, mode, n_objects):
                        "from_epoch", "epoch_of", "epoch_of", "to_local",
                        "parse_zoneless", "strptime_s", "strftime_s",
                        "props_from_epoch", "dto_now", "parser_new",
-                       "dto_new"])
+                       "dto_new", "dto_s"])
     if kind == "local_tz":
         return ["local_tz"]
     if kind == "local_tz_fmt":
         return ["local_tz_fmt", rng.choice(FMT_MODES)]
     if kind == "now":
         return ["now", rng.random() < 0.4]
-    if kind in ("from_epoch", "props_from_epoch", "strptime_s"):
+    if kind in ("from_epoch", "props_from_epoch", "strptime_s", "dto_s"):
         r_lim = rng.random()
         limit = 2 * 10 ** 12 if r_lim < 0.005 else (
             10 ** 11 if r_lim < 0.10 else 10 ** 10)
@@ -134,6 +134,9 @@ def gen_op(rng, mode, n_objects):
             if n < 0:
                 n = -n
             return ["strptime_s", n, rng.randrange(max(1, n_objects))]
+        if kind == "dto_s":
+            # the count read by a long-lived operator with --parse-format=%s
+            return ["dto_s", abs(n), rng.random() < 0.5]
         return ["props_from_epoch", n]
     if kind == "epoch_of":
         return ["epoch_of", gen_point_spec(rng, mode)]
@@ -150,7 +153,10 @@ def gen_op(rng, mode, n_objects):
         return ["dto_now", rng.randrange(max(1, n_objects)),
                 rng.choice([None, None, "PT1H", "-P1D"])]
     if kind == "parser_new":
-        return ["parser_new"]
+        # parsers come in configurations: the zone assumed for zone-less
+        # text is one of them (it must not touch text that has a zone, nor
+        # a count of seconds since the epoch)
+        return ["parser_new", rng.choice([0, 0, 1, 1, 2, 3])]
     return ["dto_new", rng.random() < 0.3]
 
 
@@ -234,6 +240,15 @@ def gen_grid(rng, index):
         steps.append({"k": "op", "op": ["parser_new"]})
         steps.append({"k": "op", "op": ["parse_zoneless", 86400 * index,
                                         "ext", 0]})
+        # a parser that assumes a zone for zone-less text: a count of seconds
+        # is not zone-less text
+        steps.append({"k": "op", "op": ["parser_new", 1 + index % 3]})
+        steps.append({"k": "op", "op": ["strptime_s", 86400 * index + 3600 * (
+            index % 24), 1]})
+        steps.append({"k": "op", "op": ["parse_zoneless", 86400 * index,
+                                        "ext", 1]})
+        steps.append({"k": "op", "op": ["dto_s", 86400 * index + 59,
+                                        bool(isdst)]})
         steps.append({"k": "pert", "act": ["tzset", 1]})
         steps.append({"k": "op", "op": ["local_tz"]})
         steps.append({"k": "op", "op": ["parse_zoneless", 86400 * index,
@@ -433,6 +448,9 @@ class Sim(object):
         self.sig = []
         self.states = set()
         self.objects = []       # long-lived parsers / operators
+        self.dto_s = {}
+        self.dto_s_born = {}
+        self.picked_assumed = None
         self.facade = None
         self.sim_time_us = 0
         self.n_span = 0
@@ -619,8 +637,16 @@ class Sim(object):
                              "local")
             return safe_str(q)
         if kind == "parser_new":
-            self.objects.append(("parser", parsers.TimePointParser(),
-                                 fac.config()))
+            variant = op[1] if len(op) > 1 else 0
+            assumed = {0: None, 1: (0, 0), 2: (5, 30), 3: (-8, 0)}[variant]
+            if assumed is None:
+                parser = parsers.TimePointParser()
+            else:
+                parser = parsers.TimePointParser(
+                    assumed_time_zone=assumed,
+                    allow_truncated=variant == 3)
+                self.count("probe.parser_with_assumed_zone")
+            self.objects.append(("parser", parser, fac.config(), assumed))
             return "NEW"
         if kind == "dto_new":
             saved_mode = data.Calendar.default().mode
@@ -644,8 +670,19 @@ class Sim(object):
                 t -= H * 3600 + M * 60 + S
             p = parser.parse(text)
             tz = p.time_zone
-            if self.check_offset_pair((tz.hours, tz.minutes), before, kind,
-                                      step_no, "default zone of parse"):
+            assumed = self.picked_assumed
+            if assumed is not None:
+                if (tz.hours, tz.minutes) != tuple(assumed):
+                    self.violate("local_offset", kind, step_no,
+                                 what="assumed zone of parse",
+                                 got=[tz.hours, tz.minutes],
+                                 want_any_of=[list(assumed)])
+                else:
+                    off = tz.hours * 60 + tz.minutes
+                    self.check_point(p, kind, step_no, t - 60 * off, 0,
+                                     before, None)
+            elif self.check_offset_pair((tz.hours, tz.minutes), before, kind,
+                                        step_no, "default zone of parse"):
                 # the civil fields are exactly those written
                 off = tz.hours * 60 + tz.minutes
                 self.check_point(p, kind, step_no, t - 60 * off, 0, before,
@@ -663,6 +700,34 @@ class Sim(object):
                              "local")
             self.note_n(n)
             return safe_str(p)
+        if kind == "dto_s":
+            n, utc = op[1], op[2]
+            dto = self.dto_s.get(utc)
+            if dto is None:
+                dto = self.dto_s[utc] = DateTimeOperator(
+                    utc_mode=utc, parse_format="%s",
+                    calendar_mode=data.Calendar.default().mode)
+            elif self.dto_s_born.get(utc) != before:
+                self.count("probe.stale_instance_reuse")
+            self.dto_s_born.setdefault(utc, before)
+            outs = [dto.process_time_point_str(str(n)),
+                    dto.process_time_point_str(str(n), None, "%s"),
+                    dto.process_time_point_str(str(n), ["PT1M"], "%s")]
+            want = [str(n), str(n), str(n + 60)]
+            if outs != want:
+                self.violate("epoch_seconds", kind, step_no, got=outs,
+                             want=want, utc_mode=utc, mode=self.mode)
+            y = model.civil_from_unix(self.mode, n, 0)[0]
+            if utc and 0 <= y <= 9999:
+                got = dto.process_time_point_str(
+                    str(n), None, "CCYY-MM-DDThh:mm:ssZ")
+                f = model.civil_from_unix(self.mode, n, 0)
+                wtxt = "%04d-%02d-%02dT%02d:%02d:%02dZ" % tuple(f)
+                if got != wtxt:
+                    self.violate("instant", kind, step_no, got=got,
+                                 want=wtxt, n=n, mode=self.mode)
+            self.note_n(n)
+            return outs
         if kind == "dto_now":
             dto = self.pick("dto", op[1], before)
             if dto is None:
@@ -719,7 +784,9 @@ class Sim(object):
         objs = [o for o in self.objects if o[0] == kind]
         if not objs:
             return None
-        _, obj, born = objs[index % len(objs)]
+        entry = objs[index % len(objs)]
+        obj, born = entry[1], entry[2]
+        self.picked_assumed = entry[3] if len(entry) > 3 else None
         if born != before:
             self.count("probe.stale_instance_reuse")
         return obj
